@@ -287,6 +287,12 @@ def prove(ctx, modules, gen_modules=()):
                     continue
                 bad = gen_failures(gm)
                 ns = gm + '.'
+                shorts = {n_.split('.')[-1] for n_ in names}
+                if not (set(bad) & shorts):
+                    # nothing of its own failed: an imported generated module did not build (the per-protocol instances
+                    # of a failed obligation) -- one failed entry, its theorems are not reported as checked
+                    ctx.oblige(gm, False, 'not built: ' + (next(iter(bad.values()), 'an imported generated module has failing obligations'))[:200])
+                    continue
                 for n_ in names:
                     short = n_.split('.')[-1]
                     if short in bad:
